@@ -24,7 +24,7 @@ import (
 func init() {
 	ev.Register(&ev.Spec{
 		ID: "C03", Level: "exploration",
-		Rule:    "real client <-> tap <-> real server over a recording backend, at every negotiated version 0..7 (the tap rewrites the version string of Tversion): every one of the 24 issuing client methods (+ SetXattr/RemoveXattr, which must stay local) is called with generated arguments (flags incl. unknown bits, modes with setuid/setgid/sticky and type bits, uid/gid sentinels, 64-bit offsets/sizes/times, every lock parameter, names and targets of arbitrary bytes) on handles derived by attach, walk (1-4 components), clone and create; the backend's call log delta must be exactly the specified call(s) on the handle the client File was derived from with equal arguments (after the documented rewriting), the caller must get the backend's results unchanged, errors as the errno found by an independent reading of the error chain (27 error shapes incl. error trees - errors.Join, multi-%w, a joined errno inside a PathError - x methods, Open (followed by a successful retry) and Close included), and only message types the version defines may cross the tap. Non-trivial: the call reached the backend (or is specified not to) with a non-zero result; distinct by (method, version class, derivation, result shape).",
+		Rule:    "real client <-> tap <-> real server over a recording backend, at every negotiated version 0..7 (the tap rewrites the version string of Tversion): every one of the 24 issuing client methods (+ SetXattr/RemoveXattr, which must stay local) is called with generated arguments (flags incl. unknown bits, modes with setuid/setgid/sticky and type bits, uid/gid sentinels, 64-bit offsets/sizes/times, every lock parameter, names and targets of arbitrary bytes) on handles derived by attach, walk (1-4 components), clone and create; the backend's call log delta must be exactly the specified call(s) on the handle the client File was derived from with equal arguments (after the documented rewriting), the caller must get the backend's results unchanged, errors as the errno found by an independent reading of the error chain (27 error shapes incl. error trees - errors.Join, multi-%w, a joined errno inside a PathError - x methods, Open (followed by a successful retry) and Close included; a handle is used again after an UnlinkAt / RenameAt naming its entry was refused), and only message types the version defines may cross the tap. Non-trivial: the call reached the backend (or is specified not to) with a non-zero result; distinct by (method, version class, derivation, result shape).",
 		Assume:  []string{"recfs records arguments by deep copy at call time", "errnoSet (checks/errno.go) is the reference errno reading", "chunking of large I/O is C11's subject: single-chunk sizes here"},
 		Shards:  shards(8, 16),
 		Timeout: timeout(8*time.Minute, 60*time.Minute),
@@ -1101,6 +1101,34 @@ func (w *tw) exercise(round int) {
 			w.bad("C03", "SetXattr/RemoveXattr-not-ENOSYS", map[string]any{"set": fmt.Sprint(e1), "remove": fmt.Sprint(e2)})
 		}
 		w.count("SetXattr", false)
+	}
+
+	// ---- a handle keeps reaching its File after requests naming its entry were refused ----
+	if hx := w.derive(d1, "hx"); hx != nil {
+		for _, refused := range []string{"UnlinkAt", "RenameAt"} {
+			w.rf.FailNext(refused, linux.ENOTEMPTY)
+			var err error
+			o := w.around(refused, func() {
+				if refused == "UnlinkAt" {
+					err = d1.UnlinkAt("hx", 0)
+				} else {
+					err = d1.RenameAt("hx", d1, "hy")
+				}
+			})
+			if o.hung {
+				return
+			}
+			w.wantErr(refused, err, linux.ENOTEMPTY)
+			valid := p9.SetAttrMask{Permissions: true}
+			sa := p9.SetAttr{Permissions: 0640}
+			o = w.around("SetAttr", func() { err = hx.SetAttr(valid, sa) })
+			if o.hung {
+				return
+			}
+			w.wantCall(o, "SetAttr", w.hnd[hx], valid, sa)
+			w.wantErr("SetAttr", err, nil)
+			w.count("SetAttr-after-refused-"+refused, true)
+		}
 	}
 
 	// ---- Close ----
